@@ -242,6 +242,94 @@ Folder2._f_BinOp = _binop
 Folder2._f_GeneratorExp = _gen  # a generator expression is a one-shot iterator (elements computed when it is created)
 
 
+# ---- which statements the representatives reached ------------------------------------------------------------------------
+_COVERAGE: Optional[set] = None
+
+
+class coverage:
+    """`with coverage() as cov:` - ids of the statements BlockEval2 executes inside the block (all evaluators, helpers included).
+    A rule that evaluates a fragment on representatives uses it to say what the representatives did *not* reach: an exit
+    (continue / break / return) that no representative takes is behaviour for inputs outside the classes the rule looked at."""
+
+    def __enter__(self):
+        global _COVERAGE
+        self._saved = _COVERAGE
+        _COVERAGE = self.cov = set() if _COVERAGE is None else _COVERAGE
+        return self.cov
+
+    def __exit__(self, *a):
+        global _COVERAGE
+        _COVERAGE = self._saved
+        return False
+
+
+def unreached_exits(fdef: ast.AST, cov: set, kinds: Sequence[type] = (ast.Continue, ast.Break, ast.Return), data: Optional[Sequence[str]] = None) -> List[tuple]:
+    """[(exit statement, text of the innermost condition it stands under)] for the conditional exits of `fdef` (nested defs
+    excluded) that no interpreted run executed although the function itself ran.  `raise` is not listed by default: a refusal is
+    loud, not a silent outcome.  With `data` (names of the parameters that carry the input data) only *data-dependent* exits are
+    listed: those inside a loop, or under a condition that mentions a name computed from the data."""
+    body = getattr(fdef, "body", [])
+    if not any(id(st) in cov for st in body):
+        return []  # the function was never interpreted: nothing to say
+    tainted: Optional[set] = None
+    if data is not None:
+        tainted = set(data)
+        changed = True
+        while changed:
+            changed = False
+            for n in ast.walk(fdef):
+                tg: List[ast.AST] = []
+                val: Optional[ast.AST] = None
+                if isinstance(n, ast.Assign):
+                    tg, val = list(n.targets), n.value
+                elif isinstance(n, (ast.AnnAssign, ast.AugAssign)) and n.value is not None:
+                    tg, val = [n.target], n.value
+                elif isinstance(n, (ast.For, ast.comprehension)):
+                    tg, val = [n.target], n.iter
+                elif isinstance(n, ast.NamedExpr):
+                    tg, val = [n.target], n.value
+                if val is None or not any(isinstance(x, ast.Name) and x.id in tainted for x in ast.walk(val)):
+                    continue
+                for t in tg:
+                    for x in ast.walk(t):
+                        if isinstance(x, ast.Name) and x.id not in tainted:
+                            tainted.add(x.id)
+                            changed = True
+    out: List[tuple] = []
+
+    def walk(stmts: Sequence[ast.stmt], guard: str, names: frozenset, in_loop: bool) -> None:
+        for st in stmts:
+            if isinstance(st, (ast.FunctionDef, ast.AsyncFunctionDef, ast.ClassDef)):
+                continue
+            if isinstance(st, tuple(kinds)):
+                if id(st) not in cov and guard and (tainted is None or in_loop or (names & tainted)):
+                    out.append((st, guard))
+                continue
+            if isinstance(st, ast.If):
+                t = ast.unparse(st.test)
+                nm = names | frozenset(x.id for x in ast.walk(st.test) if isinstance(x, ast.Name))
+                walk(st.body, t, nm, in_loop)
+                walk(st.orelse, f"not ({t})", nm, in_loop)
+            elif isinstance(st, (ast.For, ast.While)):
+                walk(st.body, guard, names, True)
+                walk(st.orelse, guard, names, in_loop)
+            elif isinstance(st, (ast.With, ast.AsyncWith)):
+                walk(st.body, guard, names, in_loop)
+            elif isinstance(st, ast.Try):
+                walk(st.body, guard, names, in_loop)
+                for h in st.handlers:
+                    # which input makes the guarded statements fail is a matter of the data: exits of a handler count as data-dependent
+                    walk(h.body, f"except {ast.unparse(h.type) if h.type is not None else ''}".strip(), names | (frozenset(tainted) if tainted else frozenset()), in_loop)
+                walk(st.orelse, guard, names, in_loop)
+                walk(st.finalbody, guard, names, in_loop)
+            elif isinstance(st, ast.Match):
+                for c in st.cases:
+                    walk(c.body, f"case {ast.unparse(c.pattern)}", names, in_loop)
+
+    walk(body, "", frozenset(), False)
+    return out
+
+
 class BlockEval2(BlockEval):
     yield_fn: Optional[Callable[[Any], None]] = None  # set by func_callable when the interpreted body is a generator
 
@@ -255,6 +343,8 @@ class BlockEval2(BlockEval):
             raise Unknown(f"`{ast.unparse(e)[:60]}`: {ex}")
 
     def _stmt(self, st: ast.stmt) -> None:
+        if _COVERAGE is not None:
+            _COVERAGE.add(id(st))
         if isinstance(st, ast.FunctionDef):
             self.env[st.name] = func_callable(self.repo, self.module, st, self.env, live=True)
             return
